@@ -161,6 +161,16 @@ impl Lsp {
         }
         Some(out)
     }
+    /// number of code actions offered for undeclared-fixture diagnostics at the given ranges
+    pub fn code_action(&self, file: &str, diags: &[(u32, u32, u32, u32)]) -> usize {
+        let ds: Vec<Value> = diags
+            .iter()
+            .map(|(l, c, l2, c2)| json!({"range": {"start": {"line": l, "character": c}, "end": {"line": l2, "character": c2}}, "code": "undeclared-fixture", "source": "pytest-lsp", "message": "m"}))
+            .collect();
+        let range = diags.first().map(|(l, c, l2, c2)| json!({"start": {"line": l, "character": c}, "end": {"line": l2, "character": c2}})).unwrap_or(json!({"start": {"line": 0, "character": 0}, "end": {"line": 0, "character": 0}}));
+        let p = serde_json::from_value(json!({"textDocument": {"uri": uri_of(&self.root.join(file)).to_string()}, "range": range, "context": {"diagnostics": ds}})).unwrap();
+        poll_now(self.backend().handle_code_action(p)).ok().flatten().map(|v| v.len()).unwrap_or(0)
+    }
     /// (line, title) per code lens
     pub fn code_lens(&self, file: &str) -> Vec<(usize, String)> {
         let p = serde_json::from_value(json!({"textDocument": {"uri": uri_of(&self.root.join(file)).to_string()}})).unwrap();
